@@ -359,3 +359,22 @@ PROPS["C01"]["explanation"] += (" Data-level half, ASCII: ascii_roundtrip (DM/Pr
 PROPS["C01"]["unproved"] = ["encode_conformant for the other five modes: forall plans, decode_data (Encode.run plan input) = input (proved for ASCII-only plans: ascii_roundtrip)"]
 PROPS["C01"]["level_text"] = ("Partial proof: the symbol-level half of the round trip is a theorem for all sizes and contents, the data-level half is a theorem for ASCII encodation"
     " (all messages, all lists, all padding amounts); the data-level half for the other modes is exploration with a specification oracle.")
+
+# C04 is now a theorem: decoder_complete over all well-formed scripts of the reference builder
+PROPS["C04"].update({
+    "lean": ["DM.Props.C04"], "level": "proof", "unproved": [],
+    "explanation": ("Theorem decoder_complete (DM/Props/C04.lean): for every script of the independent reference builder (DM/Spec/Build.lean: any sequence of ASCII runs with or without digit"
+        " packing, C40, Text, X12, EDIFACT and Base 256 runs with every termination form - UNLATCH, end of symbol, single trailing ASCII codeword after C40/Text/X12, at most two ASCII"
+        " codewords after a complete EDIFACT group, Base 256 length 0 / 1 / 2 codewords - optional Macro 05/06 or FNC1 header, any amount of padding) that is well formed (WFScript: each run is"
+        " legal in front of the codewords that follow it; decidable), the Lean model of decode_data returns exactly the bytes the script stands for. Proof: per run kind a segment lemma"
+        " (the decoder's loop for that mode inverts the builder's packing: ASCII pairs and upper shift, the C40/Text value automaton on all 512 (charset, byte) pairs by kernel evaluation,"
+        " X12 / C40 triple packing, EDIFACT 6-bit packing with the UNLATCH value in each of the four slots, Base 256 255-state randomisation by position with the three length forms), composed over the"
+        " script, plus padding and header handling. The check evaluates WFScript on every script it generates (30 000 per quick run: all scripts on which builder and reference decoder agree are"
+        " well formed), feeds the streams to the real decode_data, which must return the script's bytes, and compares the decoder model with decode_data on the same streams."),
+    "level_text": ("Proof: decoder_complete is a kernel-checked theorem over the Lean model of decode_data for all well-formed scripts of the reference builder; the model is tied to the code by"
+        " correspondence on the generated streams (and, for C05, on exhaustive-short and mutated streams); the real decoder is also run on every generated stream."),
+    "level_note": ("Trusted: Lean kernel, standard axioms, DM/Spec/Build.lean + WFScript as the formal reading of 'built according to ISO/IEC 16022' (the builder was written independently of the crate and is"
+        " cross-checked against the independent reference decoder DM/Spec/Stream.lean on every generated script), the correspondence harness for model = decode_data. Not covered by the builder:"
+        " ECI designators, FNC1 / reader programming / structured append codewords inside the data, C40 runs whose last triple is padded with shift values."),
+    "technique": "Lean 4 theorem over a hand-written decoder model and an independent reference builder (segment lemmas per mode, induction over the script) + model/implementation correspondence on builder-generated streams",
+})
